@@ -27,6 +27,8 @@ pub enum DimMode {
     TooSmall,
     /// larger than the data
     TooLarge,
+    /// a stale dimension that covers only the upper-left part of the data
+    Understated,
 }
 
 #[derive(Clone, Copy, Debug, PartialEq, Eq, Hash, PartialOrd, Ord)]
@@ -115,7 +117,7 @@ impl XlsxChoices {
         }
         XlsxChoices {
             refs: *rng.pick(&[RefMode::Explicit, RefMode::ImplicitCells, RefMode::ImplicitAll, RefMode::Mixed]),
-            dim: *rng.pick(&[DimMode::Absent, DimMode::Exact, DimMode::TooSmall, DimMode::TooLarge]),
+            dim: *rng.pick(&[DimMode::Absent, DimMode::Exact, DimMode::TooSmall, DimMode::TooLarge, DimMode::Understated]),
             prefix: if rng.chance(1, 3) { rng.pick(&["x", "ss", "main"]).to_string() } else { String::new() },
             rel_prefix: rng.pick(&["r", "r", "rel", "d3p1", "relationships"]).to_string(),
             forms,
@@ -465,6 +467,8 @@ impl<'a> Enc<'a> {
             (DimMode::Exact, None) | (DimMode::TooSmall, _) => Some("A1".to_string()),
             (DimMode::TooLarge, Some(b)) => Some(a1_rect(((b.0 .0 / 2, b.0 .1 / 2), ((b.1 .0 + 7).min(1_048_575), (b.1 .1 + 3).min(16_383))))),
             (DimMode::TooLarge, None) => Some("A1:J20".to_string()),
+            (DimMode::Understated, Some(b)) => Some(a1_rect((b.0, (b.0 .0 + (b.1 .0 - b.0 .0) / 2, b.0 .1 + (b.1 .1 - b.0 .1) / 2)))),
+            (DimMode::Understated, None) => Some("B2".to_string()),
         };
         if let Some(d) = dim {
             s.push_str(&format!("{}<{} ref=\"{}\"/>", self.nl(), self.q("dimension"), d));
